@@ -32,6 +32,10 @@ type RefGw struct {
 	GwResendUs int       `json:"gw_resend_us"`
 	GwTries    int       `json:"gw_tries"`
 	Bus        []BusStep `json:"bus,omitempty"`
+	// Refuse: tags of client telegrams the gateway does not forward: it takes the request (its counter advances, as
+	// for any request with the expected number), keeps it off the bus and acknowledges with an error status. A
+	// repetition of that request is re-acknowledged like any other duplicate (status OK: "had that one")
+	Refuse []int `json:"refuse,omitempty"`
 }
 
 type refState struct {
@@ -114,11 +118,21 @@ func (r *refState) clientRequest(s *Sim, req *knxnet.TunnelReq, raw []byte) {
 			r.expC = (exp + 1) % 256
 		}
 		r.mu.Unlock()
+		status := knxnet.ErrCode(knxnet.NoError)
 		if accept {
-			s.Tr.add(Ev{K: "bus", Tag: tag, Seq: seq, Ch: ch})
+			for _, t := range r.cfg.Refuse {
+				if t == tag {
+					status = knxnet.ErrCode(knxnet.ErrTunnellingLayer)
+				}
+			}
+			if status == knxnet.ErrCode(knxnet.NoError) {
+				s.Tr.add(Ev{K: "bus", Tag: tag, Seq: seq, Ch: ch})
+			} else {
+				s.Tr.add(Ev{K: "note", Tag: tag, Note: "gateway refuses this telegram (error status, counter advanced)"})
+			}
 		}
 		if accept || reack {
-			r.toClient(s, &knxnet.TunnelRes{Channel: uint8(ch), SeqNumber: uint8(seq), Status: knxnet.NoError})
+			r.toClient(s, &knxnet.TunnelRes{Channel: uint8(ch), SeqNumber: uint8(seq), Status: status})
 		}
 	})
 }
